@@ -18,7 +18,7 @@ ASSUMPTIONS = [
 STUBS = ["float() identity on symbolic reals in pde.solvers.*, pde.trackers.*, pde.backends.numba._solvers", "nb.typeof -> None (signatures are ignored with NUMBA_DISABLE_JIT=1)"]
 OUTSIDE = ["more than K steps per run", "trackers that modify the state", "MPI runs", "adaptive stepping (C06/C08)", "float round-off in the rounding of segment lengths (real-arithmetic semantics; the tie cases x.5 are covered exactly)"]
 BOUNDS = {"max_paths": 6000, "tmax": 900.0, "query_timeout_ms": 10000}
-CASE_TIMEOUT = 1700
+CASE_TIMEOUT = 3600
 EXPLANATION = "all paths of the real Controller.run/TrackerCollection.handle/interrupt/fixed_stepper code up to K steps, for all dt, ranges, offsets and tracker intervals"
 
 
@@ -55,7 +55,7 @@ def cases(tier, seed):
         out.append(_case(f"numba:ab:1const:dt=1:{rng}:K=3", backend="numba", solver="adams-bashforth", K=3, range=rng, dt=1, a=0.5, trackers=c1))
     if not q:
         out.append(_case("numba:2const:dt=1:whole:K=4", backend="numba", K=4, range="whole", dt=1, a=0.5, trackers=c2))
-        out.append(_case("numpy:3const:dt=1:whole:K=3", backend="numpy", K=3, range="whole", dt=1, a=0.5, trackers=c2 + [{"kind": "const", "min_ratio": 0.5}]))
+        out.append(dict(_case("numpy:3const:dt=1:whole:K=3", backend="numpy", K=3, range="whole", dt=1, a=0.5, trackers=c2 + [{"kind": "const", "min_ratio": 0.5}]), bounds={"tmax": 3000.0, "max_paths": 20000}))
         out.append(_case("numpy:1const:dt=0.1:any:K=5", backend="numpy", K=5, range="any", dt=0.1, a=0.5, trackers=c1))
     return out
 
